@@ -256,6 +256,9 @@ func main() {
 			ja := framefmt.JoinFrame(r, 1).MACPayload.(*lorawan.JoinAcceptPayload)
 			joinAccept(s, ja, "join-accept-payload")
 			p := lorawan.PHYPayload{MHDR: lorawan.MHDR{MType: lorawan.Proprietary, Major: lorawan.Major(r.Intn(4))}, MACPayload: &lorawan.DataPayload{Bytes: r.Bytes(r.Intn(60))}}
+			if i%8 == 0 { // a vendor-defined payload type (lorawan.Payload is an open interface)
+				p.MACPayload = &framefmt.Opaque{B: r.Bytes(1 + r.Intn(60))}
+			}
 			copy(p.MIC[:], r.Bytes(4))
 			roundTrip(s, p, "proprietary")
 		}
